@@ -4,7 +4,9 @@ theorems : lean/GoldModel/Props/C06.lean — ladder_spec (the operator ladder re
            body_parser.rs equals the property's ladder and is the one the model uses),
            foldBin_left_assoc (every level associates to the left, unboundedly),
            operator_pairs (all 23 x 23 operator pairs, kernel-evaluated on the model:
-           `a op1 b op2 c` binds by precedence and associates to the left), range lemmas.
+           `a op1 b op2 c` binds by precedence and associates to the left), range lemmas;
+           lean/GoldModel/Props/C06Expr.lean — expr_roundtrip / level_roundtrip / expr_roundtrip_memo: parse_expr (print e ++ k)
+           = (tree e, k, no diagnostics) for every well-formed expression e of the full expression grammar (unbounded).
 tie      : E5 (operator ladder) regenerated from the source; `parse` correspondence.
 oracle   : grammar-directed generator that emits text + expected tree (vlib/gen/wf.py):
            parse_gold(lex(text)) must have zero diagnostics and the expected shape; every
@@ -13,7 +15,7 @@ oracle   : grammar-directed generator that emits text + expected tree (vlib/gen/
 import re
 
 from .. import core, ranges, sexp
-from ..gen import wf, parsecases, exspec, progspec
+from ..gen import wf, parsecases, exspec, words, progspec
 
 RULE = ("cases = well-formed programs from the grammar-directed generator vlib/gen/wf.py (every construct of the supported grammar, depth/size bounded) "
         "under random layout and keyword case, + every ordered pair of binary operators (a op1 b op2 c), + every block statement nested in every "
@@ -37,9 +39,16 @@ def norm_expected(n):
     return "(%s %s%s)" % (kind, ident, "".join(" " + norm_expected(k) for k in kids if k[0] != "comment"))
 
 
-def innermost_ok(root, line_toks):
-    """the innermost node at the position of every identifier token is a node named by it"""
+def innermost_ok(root, line_toks, real=None):
+    """the innermost node at the position of every identifier token is a node named by it; `real` = the answers of the
+    services' own position lookup (harness mode `encase`: manager::utils::search_encasing_node on the annotated tree):
+    wherever the tree has a node named by the identifier as its innermost node, the real lookup must return a node of that name"""
     bad = []
+    found = {}
+    for w in (real or "").split(" "):
+        if "=" in w:
+            k, v = w.split("=", 1)
+            found[k] = v.split("|")
     nodes = list(root.walk())
     for w in line_toks:
         p = w.split(":")
@@ -60,24 +69,32 @@ def innermost_ok(root, line_toks):
         # names kept as attributes of a node (uses lists, the parent of a class, options / inverse of a reference type) are not nodes
         if best[1].ident != val and best[1].kids == [] and best[1].kind not in ("uses", "class", "type_ref"):
             bad.append((val, (l, c), best[1].kind, best[1].ident))
+        elif best[1].ident == val and real is not None and best[1].kind in ("terminal", "method_call", "array_access", "type_basic"):
+            f = found.get("%d:%d" % (l, c))
+            if f is None or core.unesc(f[1]) != val:
+                bad.append((val, (l, c), "position lookup of the services returns", "%s %s" % (f[0], core.unesc(f[1])) if f else "nothing"))
     return bad
 
 
 def run(ctx):
     ctx.trusted += [
         "Lean 4.33 kernel + leanchecker; axioms ⊆ {propext, Classical.choice, Quot.sound}; `decide +kernel` for the finite operator-pair table",
-        "translator item E5 (operator ladder of body_parser.rs)",
+        "translator items E5 (operator ladder of body_parser.rs) and E6 (order of the alternatives of every ordered choice of mod.rs / body_parser.rs)",
         "the generator vlib/gen/wf.py IS the statement of 'the tree the grammar prescribes' for the oracle (a second, independent description of the grammar)",
     ]
     ctx.assumptions += [
-        "PARTIAL: the general round-trip theorem parse(print p) = expected p is not proved; proved are the ladder, left-association of the fold, and the "
-        "complete finite table of operator pairs on the model; everything else is established by the generator oracle on the implementation",
+        "PARTIAL: the round-trip theorem parse(print p) = expected p is proved for EXPRESSIONS (Props/C06Expr: the full grammar of parse_expr — atoms, "
+        "parentheses, 23 binary operators, prefix/postfix operators, member-access chains with calls and indexing, set literals; no comments between the "
+        "tokens), not for statements and declarations; also proved are the ladder, left-association of the fold, and the complete finite table of "
+        "operator pairs on the model; everything else is established by the generator oracle on the implementation",
     ]
     if ctx.replay:
         return replay(ctx)
-    ctx.extract(["E5_OperatorLadder"])
+    ctx.extract(["E5_OperatorLadder", "E6_AltOrders", "E6b_TokenLists"])
     ctx.prove("GoldModel.Props.C06")
     ctx.prove("GoldModel.Props.C06Expr")
+    ctx.prove("GoldModel.Props.C06Alts")
+    ctx.prove("GoldModel.Props.C06Text")
     ctx.prove("GoldModel.Props.C06Prog")
     if not ctx.build_harness():
         return ctx.finish(rule=RULE)
@@ -126,13 +143,15 @@ def run(ctx):
         expected.append(tree)
         ctx.count("generated-program")
     expr_spec(ctx, 3000 if q else 60000, 6)
+    words.render_tie(ctx, 3000 if q else 60000)
     prog_spec(ctx, 2500 if q else 50000, 3)
     lines = parsecases.texts_to_lines(ctx, texts)
     ctx.log("%d programs" % len(lines))
     impl = ctx.run_harness("parse", lines, timeout=1200)
     model = ctx.run_driver(lines, timeout=1200)
     ctx.compare("parse", lines, impl, model)
-    for text, exp, line, a in zip(texts, expected, lines, impl):
+    encased = ctx.run_harness("encase", ["encase" + l[5:] if l.startswith("parse") else l for l in lines], timeout=1200)
+    for text, exp, line, a, enc_real in zip(texts, expected, lines, impl, encased):
         case = {"mode": "text", "text": text, "case": line}
         t, d = sexp.field(a, "T"), sexp.field(a, "D")
         if t is None:
@@ -156,7 +175,7 @@ def run(ctx):
             what, p, k = enc[0]
             ctx.oracle_fail("C06:range-does-not-enclose-child", "node %s %s %s does not enclose child %s %s %s" % (p.kind, p.ident, p.rng, k.kind, k.ident, k.rng), case)
             continue
-        inner = innermost_ok(root, line.split(" ")[1:])
+        inner = innermost_ok(root, line.split(" ")[1:], enc_real)
         if inner:
             ctx.oracle_fail("C06:innermost-node-is-not-the-identifier", "at identifier %s %s the innermost node is %s %s" % inner[0], case)
     ctx.samples = [{"text": texts[i][:400], "expected": norm_expected(expected[i])[:400]} for i in (0, len(texts) - 1, len(texts) // 2)]
@@ -167,28 +186,33 @@ def dump_node(n):
     return "(%s %s %d:%d-%d:%d%s)" % ((n.kind, core.esc(n.ident)) + tuple(n.rng) + ("".join(" " + dump_node(k) for k in n.kids),))
 
 
+# constructors of `Ex` / `Args` (call0 / set0 = empty list, 1 = one item, 2 = two or more: `Args.nil`, `.one`, `.more`)
+EX_CONSTRUCTORS = ["atom", "paren", "bin", "pre", "post", "dot", "call0", "call1", "call2", "index", "set0", "set1", "set2"]
+
+
 def expr_spec(ctx, n, depth):
     """tie of the SPEC side of `expr_roundtrip` (Ex.toks / Ex.tree / Ex.wfb, Lean) to the implementation: random abstract
     expressions are printed, lexed and parsed by the real code; the Lean spec, given the real tokens, must say `well formed`
     and its `Ex.tree` must be the subtree the implementation built for the right-hand side (kinds, names, ranges)"""
     cases = []
+    used = {}
     for i in range(n):
-        words, prefix = exspec.case(ctx.rng, 1 + ctx.rng.below(depth))
+        words, prefix, cons = exspec.case(ctx.rng, 1 + ctx.rng.below(depth))
         sep = [ctx.rng.choice([" ", " ", "  ", " \n  "]) for _ in words]
         text = "proc P\n x = " + "".join(w + s for w, s in zip(words, sep)) + "\nendproc\n"
-        cases.append((text, words, prefix))
+        cases.append((text, words, prefix, cons))
         ctx.count("expr-spec")
     lines = parsecases.texts_to_lines(ctx, [c[0] for c in cases])
     impl = ctx.run_harness("parse", lines, timeout=1200)
     spec_lines = []
-    for (text, words, prefix), line in zip(cases, lines):
+    for (text, words, prefix, cons), line in zip(cases, lines):
         toks = line.split(" ")[1:]
         # proc P x = <expr words> endproc
         ex = toks[4:4 + len(words)]
         spec_lines.append("exspec 8 " + " ".join(ex[int(w[1:])] if w.startswith("#") and int(w[1:]) < len(ex) else w for w in prefix))
     spec = ctx.run_driver(spec_lines, timeout=1200)
     ok, bad = 0, []
-    for (text, words, prefix), line, a, sp in zip(cases, lines, impl, spec):
+    for (text, words, prefix, cons), line, a, sp in zip(cases, lines, impl, spec):
         case = {"mode": "text", "text": text, "case": line}
         t, d = sexp.field(a, "T"), sexp.field(a, "D")
         toks = line.split(" ")[1:]
@@ -214,6 +238,13 @@ def expr_spec(ctx, n, depth):
                             dict(case, got=got[:600], want=want[:600]))
             continue
         ok += 1
+        for c in cons:
+            used[c] = used.get(c, 0) + 1
+    for c, m in sorted(used.items()):
+        ctx.count("expr-spec:" + c, m)
+    missing = [c for c in EX_CONSTRUCTORS if not used.get(c)]
+    ctx.oblige("tie:exspec-covers-every-constructor", not missing, "never exercised: %s" % missing)
+    ctx.log("exspec: constructors exercised (cases): %s" % " ".join("%s=%d" % kv for kv in sorted(used.items())))
     ctx.oblige("tie:exspec", not bad, "%d cases, first: %s" % (len(bad), bad[0] if bad else ""))
     ctx.log("exspec: %d expressions, implementation tree == Ex.tree (ranges included)" % ok)
 
@@ -276,14 +307,31 @@ def replay(ctx):
     import json
     d = json.load(open(ctx.replay))
     case = d.get("case", {})
+    if isinstance(case, dict) and case.get("mode") == "lex" and ("words" in case or "layout" in case):
+        return words.replay(ctx, case)
     if not isinstance(case, dict) or "text" not in case:
         print("replay file names no input:", json.dumps(d.get("broken", d), indent=1)[:3000])
         return 1
     ctx.build_harness()
     line = parsecases.texts_to_lines(ctx, [case["text"]])[0]
     a = ctx.run_harness("parse", [line])[0]
+    enc = ctx.run_harness("encase", ["encase" + line[5:]])[0]
     print("text:\n" + case["text"])
     print("tree :", sexp.field(a, "T"))
     print("diags:", core.unesc(sexp.field(a, "D") or ""))
     print("want :", case.get("want", ""))
-    return 1 if sexp.field(a, "D") else 0
+    bad = []
+    if sexp.field(a, "D"):
+        bad.append("diagnostics on a well-formed program")
+    t = sexp.field(a, "T")
+    if t:
+        root = sexp.parse(t)
+        if case.get("want") and case.get("got") and case["want"] not in norm_shape(root):
+            bad.append("tree differs from the intended tree near " + case["want"][:80])
+        bad += ["range does not enclose child: %s" % (x,) for x in ranges.encloses(root)[:1]]
+        bad += ["innermost node: %s" % (x,) for x in innermost_ok(root, line.split(" ")[1:], enc)[:3]]
+    for b in bad:
+        print("fails:", b)
+    if bad:
+        print("VIOLATION property=C06 replay=%s" % ctx.replay)
+    return 1 if bad else 0
